@@ -414,6 +414,10 @@ carquet_status_t carquet_batch_reader_next(
             /* No nulls in REQUIRED columns */
             size_t bitmap_size = ((size_t)col_data->num_values + 7) / 8;
             col_data->null_bitmap = calloc(1, bitmap_size);  /* All zeros = no nulls */
+            if (!col_data->null_bitmap) {
+                read_error = true;
+                continue;
+            }
 
             /* Mark the viewed values as consumed */
             col_reader->page_values_read += (int32_t)rows_to_read;
@@ -448,11 +452,19 @@ carquet_status_t carquet_batch_reader_next(
             /* Allocate null bitmap */
             size_t bitmap_size = ((size_t)rows_to_read + 7) / 8;
             col_data->null_bitmap = calloc(1, bitmap_size);
+            if (!col_data->null_bitmap) {
+                read_error = true;
+                continue;
+            }
 
             /* Read values */
             int16_t* def_levels = NULL;
             if (max_def > 0) {
                 def_levels = malloc(sizeof(int16_t) * (size_t)rows_to_read);
+                if (!def_levels) {
+                    read_error = true;
+                    continue;
+                }
             }
 
             int64_t values_read = carquet_column_read_batch(
